@@ -19,6 +19,15 @@ size / duration / render arguments / padding) goes A -> B (-> C) -> back to A wi
 rendered under B, and frames cached under A are then revisited (next loop or backward seek): the
 hit happens while everything the iterator derives from its settings was last refreshed under B.
 
+Values: the cache is validated by comparing (size, duration, render arguments) with the current
+ones, so transparency quantifies over the VALUES of those settings, not only over when they change.
+`collide_case` / `collide_sweep` build round trips between UNEQUAL values with EQUAL CPython hashes
+(-1 / -2; x / x +- (2**61 - 1) for argument fields, static durations and the render width) and
+to / from an UNHASHABLE but valid argument field value (a list; impl/impl_c09_iter.py); a share of
+the random histories has its argument values remapped onto -1 / -2.  Theorems
+C09_hashed_cache_transparent_iff / C09_py_hashed_cache_refuted (model/IterHash.v) say why: a cache
+validated through any digest h of the key is invisible iff h separates the valid keys.
+
 The image-iterator half (`ImageIterator._animate`, model owned by C11) is covered here by
 paired cached / uncached runs only (impl/impl_c09_img.py): validation, not proof."""
 from __future__ import annotations
@@ -66,6 +75,162 @@ RT_PADS = [["E", 0, 0, 0, 0], ["E", 1, 1, 1, 1], ["E", 0, 1, 2, 0], ["A", 5, 4, 
            ["A", 1, 1, 1, 1], ["A", 0, 0, 1, 1], ["A", -70, -25, 0, 2]]
 RT_VALUES = {"size": RT_SIZES, "dur": [1, 7, 40, None], "args": [0, 1, 2], "pad": RT_PADS}
 RT_MODES = ("loop", "seek0", "back")
+
+# ----------------------------------------------------------------- the VALUES of the settings
+
+PY_M = 2 ** 61 - 1   # CPython (64-bit): hash(int x) = sign(x) * (|x| mod PY_M), and -1 -> -2
+LIST_BASE = 7000000  # impl/impl_c09_iter.py writes the argument field value [k] as LIST_BASE + k
+DRIVER = "impl_c09_iter.py"
+
+
+def twin(v):
+    """an int UNEQUAL to the int v with the SAME CPython hash"""
+    t = {-1: -2, -2: -1}.get(v, v + PY_M if v >= 0 else v - PY_M)
+    assert t != v and hash(t) == hash(v), (v, t)
+    return t
+
+
+def is_list_arg(a):
+    return isinstance(a, list) and len(a) == 2 and a[0] == "L"
+
+
+def arg_code(a):
+    """the integer the instrumented renderable writes for an argument field value (model side: [Z])"""
+    return LIST_BASE + a[1] if is_list_arg(a) else a
+
+
+def enc_case(c):
+    """the case as the Coq side sees it: argument field values as integers (equal values <-> equal codes)"""
+    e = copy.deepcopy(c)
+    e["args"] = arg_code(e["args"])
+    e["ops"] = [["args", arg_code(o[1])] if o[0] == "args" else o for o in e["ops"]]
+    return e
+
+
+def py_value(what, v):
+    """the Python value the iterator compares / a digest would hash (None: no such value)"""
+    if what == "args":
+        return None if v in ("none", "base", "bad") else (tuple(v) if is_list_arg(v) else v)
+    if what == "size":
+        return tuple(v)
+    return v if what == "dur" and v is not None else None
+
+
+def value_stats(c, r):
+    """(accepted setter operations that change a setting to an UNEQUAL value with an EQUAL hash,
+    frames yielded after such a change, accepted setters to / from an unhashable argument value)"""
+    cur = {"args": 0 if c["args"] in ("none", "base") else c["args"], "size": c["size"], "dur": c["dur"]}
+    coll = after = unhash = 0
+    seen = False
+    for o, x in zip(c["ops"], r["ops"]):
+        if o[0] in cur and x[0][0] == "K":
+            a, b = py_value(o[0], cur[o[0]]), py_value(o[0], o[1])
+            if o[0] == "args" and (is_list_arg(o[1]) or is_list_arg(cur[o[0]])):
+                unhash += 1
+            elif a is not None and b is not None and a != b and hash(a) == hash(b):
+                coll += 1
+                seen = True
+            if o[0] != "args" or o[1] != "base":
+                cur[o[0]] = o[1]
+            else:
+                cur[o[0]] = 0
+        elif o[0] == "next" and x[0][0] == "F" and seen:
+            after += 1
+    return coll, after, unhash
+
+
+def value_family(c):
+    """which kind of setting values a history contains (for choosing the failing inputs to shrink)"""
+    if any(is_list_arg(a) for a in [c["args"]] + [o[1] for o in c["ops"] if o[0] == "args"]):
+        return "unhashable"
+    cur = {"args": 0 if c["args"] in ("none", "base") else c["args"], "size": c["size"], "dur": c["dur"]}
+    fam = set()
+    for o in c["ops"]:
+        if o[0] in cur:
+            a, b = py_value(o[0], cur[o[0]]), py_value(o[0], o[1])
+            if a is not None and b is not None and a != b and hash(a) == hash(b):
+                fam.add(o[0])
+            cur[o[0]] = 0 if o[0] == "args" and o[1] == "base" else o[1]
+    return "collide:" + ",".join(sorted(fam)) if fam else "plain"
+
+
+ARG_VALUES = [0, 1, 2, -1, -2, -1, -2, 5, -7]
+
+
+def collide_case(rng, i):
+    """A round trip (shape of `rt_leg`) over ONE setting between values the iterator must tell apart
+    although a digest may not: A -> twin(A) (-> twin of that) -> A for an argument field, a static
+    duration or the render width; or to / from / between list-valued (unhashable) argument fields."""
+    n = rng.choice([2, 3, 3, 4])
+    loops = rng.choice([2, 3, -1, -1, 1])
+    what = ("args", "args", "dur", "size", "args")[i % 5]
+    unhashable = what == "args" and i % 5 == 4
+    cfg = {"size": list(rng.choice(RT_SIZES)), "dur": rng.choice([1, 7, 40] if what == "dur" else RT_VALUES["dur"]),
+           "args": rng.choice(ARG_VALUES),
+           # a width beyond 2**61 cannot be padded (the padding lines would be that long): no padding there
+           "pad": ["E", 0, 0, 0, 0] if what == "size" or rng.random() < 0.4 else list(rng.choice(RT_PADS))}
+    if unhashable and rng.random() < 0.5:
+        cfg["args"] = ["L", rng.choice([3, 4])]
+    c = base.base_case(n=n, loops=loops, cache=rng.choice([True, True, n, n + 1, 100]), stamp=True, **cfg)
+    a = cfg[what]
+    if unhashable:
+        b = ["L", rng.choice([3, 4])] if not is_list_arg(a) or rng.random() < 0.6 else rng.choice(ARG_VALUES)
+        via = rng.choice([None, ["L", 3], 0])
+    elif what == "size":
+        b, via = [twin(a[0]), a[1]], None
+    else:
+        b = twin(a)
+        via = rng.choice([None, None, a + 2 * PY_M if a >= 0 else a - 2 * PY_M])
+    if via is not None and via in (a, b):
+        via = None
+    h = _Hist(n, loops)
+    mode = rng.choice(RT_MODES) if loops != 1 else rng.choice(RT_MODES[1:])
+    rt_leg(h, what, a, b, rng.randint(1, n), min(rng.choice([1, 1, 1, 2, 0]), n - 1), mode, via=via,
+           seek_first=rng.randrange(n) if rng.random() < 0.4 else None, how=rng.choice([0, 0, 1, 2]),
+           tail=rng.choice([None, 0, 1]))
+    if rng.random() < 0.3:  # an ordinary round trip of another setting afterwards
+        w2 = rng.choice([w for w in ("dur", "args") if w != what])
+        a2 = h_current(c, h.ops, w2)
+        if not is_list_arg(a2):
+            rt_leg(h, w2, a2, _other(rng, w2, a2), rng.randint(0, 2), 1, mode, how=0, tail=0)
+    c["ops"] = h.ops
+    return c
+
+
+def h_current(c, ops, what):
+    v = c[what]
+    for o in ops:
+        if o[0] == what:
+            v = o[1]
+    return 0 if what == "args" and v in ("none", "base") else v
+
+
+def collide_sweep():
+    """Thorough tier: every (frame count, frames under A, frames under B, way of revisiting, finite or
+    infinite loops) for each kind of colliding / unhashable change."""
+    kinds = [("args", -1, -2), ("args", 5, 5 + PY_M), ("args", 0, PY_M), ("args", 0, ["L", 3]), ("args", ["L", 3], ["L", 4]),
+             ("dur", 7, 7 + PY_M), ("size", [2, 1], [2 + PY_M, 1])]
+    out = []
+    for what, a, b in kinds:
+        for n in (2, 3, 4):
+            for k1 in range(1, n + 1):
+                for j in range(0, n):
+                    for mode in RT_MODES:
+                        for loops in (2, -1):
+                            cfg = {"size": [2, 1], "args": 1, "dur": 7, "pad": ["E", 0, 0, 0, 0] if what == "size" else ["E", 1, 0, 2, 1]}
+                            cfg[what] = a
+                            out.append(rt_case(n, what, b, k1, j, mode, loops=loops, **cfg))
+    return out
+
+
+def remap_values(c, rng):
+    """the same history with its argument values 1 / 2 replaced by -1 / -2 (or 5 / 5 + PY_M)"""
+    m = rng.choice([{1: -1, 2: -2}, {1: -1, 2: -2}, {1: 5, 2: 5 + PY_M}, {0: -2, 1: -1}])
+    c = copy.deepcopy(c)
+    if isinstance(c["args"], int):
+        c["args"] = m.get(c["args"], c["args"])
+    c["ops"] = [["args", m.get(o[1], o[1])] if o[0] == "args" and isinstance(o[1], int) else o for o in c["ops"]]
+    return c
 
 
 class _Hist:
@@ -127,7 +292,7 @@ def rt_leg(h, what, a, b, k1, j, mode, via=None, seek_first=None, how=0, tail=No
 def rt_case(n, what, b, k1, j, mode, loops=2, cache=True, via=None, seek_first=None, how=0, tail=None, **cfg):
     c = base.base_case(n=n, loops=loops, cache=cache, stamp=True, **cfg)
     h = _Hist(n, loops)
-    rt_leg(h, what, c[what] if what != "args" or c[what] not in ("none", "base") else 0, b, k1, j, mode,
+    rt_leg(h, what, c[what] if what != "args" or is_list_arg(c[what]) or c[what] not in ("none", "base") else 0, b, k1, j, mode,
            via=via, seek_first=seek_first, how=how, tail=tail)
     c["ops"] = h.ops
     return c
@@ -198,6 +363,26 @@ RT_CORPUS = (
 )
 
 
+VAL_CORPUS = [
+    # one pass, the argument field goes -1 -> -2 (equal hashes), the next pass; and back
+    base.base_case(n=3, loops=3, cache=True, stamp=True, args=-1, ops=[N] * 3 + [["args", -2]] + [N] * 3 + [["args", -1]] + [N] * 3),
+    # x -> x + (2**61 - 1): argument field, static duration, render width
+    rt_case(3, "args", 5 + PY_M, 2, 1, "loop", args=5, pad=["E", 1, 0, 0, 1]),
+    rt_case(2, "args", PY_M, 2, 1, "seek0", loops=-1, args=0),
+    rt_case(3, "dur", 7 + PY_M, 2, 1, "loop", dur=7),
+    rt_case(3, "dur", 1 + PY_M, 3, 1, "back", loops=1, tail=1, dur=1, pad=["A", 6, 4, 1, 1]),
+    rt_case(3, "size", [2 + PY_M, 1], 2, 1, "loop", size=[2, 1]),
+    rt_case(2, "size", [1 + PY_M, 1], 2, 1, "seek0", loops=3, size=[1, 1]),
+    # unhashable (list-valued) argument field: from the start; set mid-iteration; list -> equal list
+    # (no re-render) -> another list -> back to an int
+    base.base_case(n=2, loops=2, cache=True, stamp=True, args=["L", 3], ops=[N] * 5),
+    base.base_case(n=2, loops=3, cache=True, stamp=True, args=0,
+                   ops=[N, N, ["args", ["L", 3]], N, N, ["args", ["L", 3]], N, ["args", ["L", 4]], N, ["seek", 0, 0, True],
+                        N, ["args", 0], N, N]),
+    rt_case(3, "args", ["L", 4], 2, 1, "back", loops=1, tail=1, args=["L", 3], pad=["E", 0, 1, 0, 0]),
+]
+
+
 CORPUS = (
     [revisit(n, w) for n in (2, 3) for w in ("size", "dur", "args", "pad")]
     + [revisit(3, "args", cache=c) for c in (2, 3, 4, False)]
@@ -219,6 +404,7 @@ CORPUS = (
         base.base_case(n=3, loops=1, cache=True, stamp=True, ops=[N, N, ["seek", 0, 0, True], N, N, N, N]),
     ]
     + RT_CORPUS
+    + VAL_CORPUS
 )
 
 
@@ -232,10 +418,11 @@ def evaluate(cases, tag="c09"):
     both = []
     for c in cases:
         both += [c, uncached(c)]
-    impl = core.run_impl_parallel("impl_c08.py", both)
+    impl = core.run_impl_parallel(DRIVER, both)
     terms = []
     for k, c in enumerate(cases):
-        terms.append(f"({base.case_t(c, impl[2 * k])}, {base.case_t(uncached(c), impl[2 * k + 1])})")
+        e = enc_case(c)
+        terms.append(f"({base.case_t(e, impl[2 * k])}, {base.case_t(uncached(e), impl[2 * k + 1])})")
     codes = [0] * len(cases)
     res, errors = core.coq_shards(tag, HEADER, terms, "tcase * tcase", "bad9w cases", shard=100)
     for idx, code in res:
@@ -290,20 +477,34 @@ def run(ctx):
     else:
         ngen = 450 if ctx.quick else 6000
         nrt = 160 if ctx.quick else 2400
+        ncol = 60 if ctx.quick else 900
         # a generator of their own (derived from the run's seed): the round trips do not shift the
         # random stream of the other generators of this plugin
         import random
         rt_rng = random.Random(ctx.seed * 1000003 + 9)
-        cases = ([copy.deepcopy(c) for c in CORPUS] + [gen_case(rng, i) for i in range(ngen)]
-                 + [roundtrip_case(rt_rng, i) for i in range(nrt)])
+        val_rng = random.Random(ctx.seed * 1000003 + 10)
+        cases = ([copy.deepcopy(c) for c in CORPUS]
+                 + [remap_values(c, val_rng) if val_rng.random() < 0.25 else c
+                    for c in (gen_case(rng, i) for i in range(ngen))]
+                 + [roundtrip_case(rt_rng, i) for i in range(nrt)]
+                 + [collide_case(val_rng, i) for i in range(ncol)])
         if not ctx.quick:
-            cases += roundtrip_sweep()
+            cases += roundtrip_sweep() + collide_sweep()
     codes, errors, impl = evaluate(cases)
     failing = [cases[i] for i, code in enumerate(codes) if code >= 2]
     failures = []
     if failing:
         failing.sort(key=lambda c: len(c["ops"]))  # shrink the smallest ones: fewer, cheaper rounds
-        minimal = [base.shrink(c, fails_spec9, "c09s") if k < 2 else c for k, c in enumerate(failing)]
+        # ... one per family of setting values first (unhashable argument value / change between hash-equal
+        # unequal values of arguments, duration, size / neither), so that each kind of failing input is shown
+        first, seen_fam = [], set()
+        for c in failing:
+            if value_family(c) not in seen_fam:
+                seen_fam.add(value_family(c))
+                first.append(c)
+        failing = first + [c for c in failing if not any(c is f for f in first)]
+        minimal = [base.shrink(c, fails_spec9, "c09s") if k < max(2, min(len(first), 4)) else c
+                   for k, c in enumerate(failing)]
         uniq = {}
         for m in minimal:
             uniq.setdefault(base.signature(m), m)
@@ -323,9 +524,20 @@ def run(ctx):
     hist = base.histogram(cases, [r["cached"] for r in impl])
     saved, hits, revisits, enabled, setting_changes_then_revisit = 0, 0, 0, 0, 0
     rt_hits = [0, 0, 0, 0]
+    vals = {"accepted_changes_to_an_unequal_value_with_equal_hash": 0, "frames_yielded_after_such_a_change": 0,
+            "histories_with_such_a_change": 0, "accepted_changes_to_or_from_an_unhashable_argument_value": 0,
+            "histories_with_an_unhashable_argument_value": 0, "histories_with_negative_or_huge_argument_values": 0}
     for c, r in zip(cases, impl):
         if r["cached"]["ctor"][0] != "ok":
             continue
+        vs = value_stats(c, r["cached"])
+        vals["accepted_changes_to_an_unequal_value_with_equal_hash"] += vs[0]
+        vals["frames_yielded_after_such_a_change"] += vs[1]
+        vals["histories_with_such_a_change"] += vs[0] > 0
+        vals["accepted_changes_to_or_from_an_unhashable_argument_value"] += vs[2]
+        allargs = [c["args"]] + [o[1] for o in c["ops"] if o[0] == "args"]
+        vals["histories_with_an_unhashable_argument_value"] += any(is_list_arg(a) for a in allargs)
+        vals["histories_with_negative_or_huge_argument_values"] += any(isinstance(a, int) and not 0 <= a <= 2 for a in allargs)
         hk = roundtrip_hits(c, r["cached"])
         rt_hits = [rt_hits[0] + hk[0], rt_hits[1] + hk[1], rt_hits[2] + hk[2], rt_hits[3] + (hk[1] + hk[2] > 0)]
         lc, lu = len(r["cached"]["log"]), len(r["uncached"]["log"])
@@ -350,7 +562,8 @@ def run(ctx):
                    "cache_hits_after_a_round_trip_of_size_duration_or_arguments_with_renders_under_the_other_value": rt_hits[1],
                    "cache_hits_after_a_padding_round_trip_with_renders_under_the_other_padding": rt_hits[2],
                    "histories_with_such_a_round_trip_hit": rt_hits[3],
-                   "deterministic_frame_faults": sum(1 for c in cases if c.get("ffaults"))}
+                   "deterministic_frame_faults": sum(1 for c in cases if c.get("ffaults")),
+                   "setting_values": vals}
     extra = {}
     dd = run_draw_decisions(ctx)
     extra["draw_cache_decisions"] = dd["summary"]
@@ -375,7 +588,12 @@ def run(ctx):
                 "goes A -> B (-> C) -> A with a partial pass rendered under B, then the frames cached under A are "
                 "revisited by the next loop, seek(0) or a backward seek; 2-4 frames, loops {1,2,3,-1}, with and "
                 "without padding, 1-2 round trips per history; thorough adds the full sweep over setting x frame "
-                "count x frames under A x frames under B x way of revisiting); each history run with its cache "
+                "count x frames under A x frames under B x way of revisiting); VALUES: round trips between UNEQUAL "
+                "values with EQUAL CPython hashes (-1 / -2, x / x +- (2**61 - 1)) of an argument field, a static "
+                "duration or the render width, and to / from / between list-valued (unhashable) argument fields "
+                "(collide_case; thorough adds the sweep over kind of change x frame count x frames under A x "
+                "frames under B x way of revisiting), a quarter of the random histories with argument values "
+                "remapped onto -1 / -2 / 5 / 5 + 2**61 - 1; each history run with its cache "
                 "argument and with cache=False; both runs also judged by the history-level oracle (wrap_okb / "
                 "current_okb: every yielded frame is sized, padded and rendered for the settings in force). "
                 "Non-trivial: caching enabled by the documented rule, >= 4 ops, >= 2 frames, a seek or setter, and "
@@ -392,15 +610,20 @@ def run(ctx):
             "on the frame offset, whence, size, duration and arguments it is handed; true of the instrumented "
             "renderable once call stamps are erased; no_rerender_unchanged needs no such assumption",
             "cache keys are compared by value ((size, duration, render_args) tuple equality), arguments are "
-            "identified with their field values",
+            "identified with their field values (a list-valued field [k] with the integer 7000000 + k: equal values "
+            "<-> equal codes); hashed_cache_transparent_iff: comparing any digest h of the key instead is "
+            "transparent iff h separates valid keys - CPython's hash does not (py_int_hash, 64-bit builds)",
             "wrap_current assumes the contract of _render_ (render_honours_size: the returned frame has the "
             "requested size; true of the instrumented renderable, lemma wex_honours); padded_is_current and "
             "settings_by_history assume nothing about the renderable",
             "the image iterator half (ImageIterator._animate) is validated by paired runs only; its model and "
             "theorems belong to C11",
         ],
-        "trusted": ["impl driver (shared with C08): call stamps written into the render output identify the "
-                    "_render_ invocation that produced a delivered frame"],
+        "trusted": ["impl driver (impl_c09_iter.py = impl_c08.py, shared with C08, plus list-valued argument fields): "
+                    "call stamps written into the render output identify the _render_ invocation that produced a "
+                    "delivered frame; a list-valued field is written by the renderable as an integer code",
+                    "the harness interpreter and the library's interpreter agree on hash() of ints (both CPython 64-bit; "
+                    "asserted for every colliding pair generated)"],
     }
 
 
@@ -496,6 +719,18 @@ def run_image_pairs(ctx):
     except Exception as e:  # noqa: BLE001
         return {"summary": {}, "failures": [], "errors": [f"image iterator driver failed: {e}"[:800]]}
     failures, frames, pairs_ok = [], 0, 0
+    errors = []
+    # hypothesis [hash_separates] of C09_imgiter_cache_transparent, validated on the rendered sizes that
+    # occurred (and, in the driver, on every size of a 400 x 200 box): distinct sizes have distinct hashes.
+    # Colliding rendered sizes are not reachable: a size component is positive and far below 2**61 - 1,
+    # where hash(int) is the identity (C09_py_int_hash_small_inj); -1 / -2 cannot be components at all.
+    sizes = {}
+    for r in res:
+        for w, h, hv in r.get("sizes", []):
+            sizes[(w, h)] = hv
+    if len(set(sizes.values())) != len(sizes) or any(not r.get("hash_box_injective", True) for r in res):
+        errors.append("hash(rendered_size) does not separate the rendered sizes that occur: the hypothesis of "
+                      f"C09_imgiter_cache_transparent fails on {sorted(sizes)[:20]}")
     for c, r in zip(cases, res):
         frames += r["frames"]
         if r["equal"]:
@@ -503,5 +738,6 @@ def run_image_pairs(ctx):
         else:
             failures.append({"signature": core.sig(c), "what": "ImageIterator cached vs uncached differ: " + json.dumps(c)
                              + " first difference at op " + str(r["first_diff"]), "replay": {"image_case": c, "observed": r}})
-    return {"summary": {"pairs": len(cases), "pairs_equal": pairs_ok, "frames_compared": frames},
-            "failures": failures, "errors": []}
+    return {"summary": {"pairs": len(cases), "pairs_equal": pairs_ok, "frames_compared": frames,
+                        "distinct_rendered_sizes_seen": len(sizes), "size_hash_separates_them": not errors},
+            "failures": failures, "errors": errors}
